@@ -3,7 +3,8 @@
 into /verif/seeded/<Cnn>-<N>/ (patch.diff, demonstration, demo_cmd.txt, meta.json)."""
 import json, os, shutil, sys
 pid, n = sys.argv[1], sys.argv[2]
-src = "/tmp/seed_%s/SEED/%s" % (pid, n)
+wt = os.environ.get("SRC_WT", pid)  # worktree name when several agents worked on one property (e.g. C20a)
+src = "/tmp/seed_%s/SEED/%s" % (wt, n)
 dst = "/verif/seeded/%s-%s" % (pid, os.environ.get("KEEP_AS", n))
 shutil.rmtree(dst, ignore_errors=True)
 os.makedirs(dst)
@@ -22,7 +23,7 @@ try:
 except Exception:
     pass
 ver = {}
-vf = "/tmp/x/vs_%s_%s.json" % (pid, n)
+vf = "/tmp/x/vs_%s_%s.json" % (wt, n)
 if os.path.exists(vf):
     v = json.load(open(vf))
     ver = {k: v.get(k) for k in ("patch_applies", "builds", "passes_without_patch", "fails_with_patch", "baseline_missing", "tests")}
